@@ -234,9 +234,104 @@ func (h *hist) verifyTok(t int, key int) {
 	h.add(vm.Op{K: "verify", A: t, KS: ks, Az: &az, Lim: &vm.Lim{MaxDurNs: 1e9}})
 }
 
+// genReplayed is an honest history whose every drawing operation is fed the same 32 bytes: a
+// deterministic entropy source is legal input (C17's premise of fresh entropy does not hold for it
+// and uniqueness is not judged). Every block then announces the same key, and blocks of equal
+// content that bring no new symbols are byte-identical signed blocks. Whatever the library makes of
+// it by building, attenuating and sealing must still load and verify (C01, third sentence), and the
+// sealed token must still stand for what the open one stands for (C09).
+func genReplayed(r *rand.Rand, withIDs bool) *vm.Plan {
+	h := newHist(r, 1, withIDs)
+	h.base = nil
+	plain := func() ref.Block {
+		fs := []ref.Pred{
+			{Name: "right", Terms: []ref.Term{ref.Str("read")}},
+			{Name: "role", Terms: []ref.Term{ref.Str("admin")}},
+			{Name: "operation", Terms: []ref.Term{ref.Str("write")}},
+		}
+		b := ref.Block{}
+		if r.Intn(4) != 0 {
+			b.Facts = fs[:1+r.Intn(3)]
+		}
+		if r.Intn(5) == 0 {
+			b.Context = "same context"
+		}
+		return b
+	}
+	t := h.issue()
+	key := h.tokKey[t]
+	same := plain()
+	for n := 1 + r.Intn(5); n > 0; n-- {
+		blk := same
+		switch r.Intn(4) {
+		case 0:
+			blk = plain()
+		case 1:
+			blk = h.g.Block(2, 1, 1)
+		}
+		t = h.attenuate(t, blk)
+		h.toks = append(h.toks, t)
+		h.honest = append(h.honest, t)
+		h.tokKey[t] = key
+	}
+	if r.Intn(3) == 0 { // one built block appended twice in a row to the growing chain is refused or shifted
+		// by upstream (built for another parent); two children of one parent are the supported form
+		for n := 0; n < 2; n++ {
+			c := h.attenuate(t, same)
+			h.toks = append(h.toks, c)
+			h.honest = append(h.honest, c)
+			h.tokKey[c] = key
+		}
+	}
+	s := h.seal(t)
+	h.tokKey[s] = key
+	h.toks = append(h.toks, s)
+	if r.Intn(2) == 0 {
+		x := h.pick(h.honest)
+		s2 := h.seal(x)
+		h.tokKey[s2] = key
+		h.toks = append(h.toks, s2)
+	}
+	az := h.az[0]
+	for _, x := range append([]int{}, h.toks...) {
+		if r.Intn(3) == 0 && x != s && x != t {
+			continue
+		}
+		nx := h.receive(h.send(x), false)
+		h.tokKey[nx] = key
+		h.add(vm.Op{K: "verify", A: x, KS: &vm.KeySel{Key: key}, Az: &az, Lim: &vm.Lim{MaxDurNs: 1e9}})
+		h.add(vm.Op{K: "verify", A: nx, KS: &vm.KeySel{Key: key}, Az: &az, Lim: &vm.Lim{MaxDurNs: 1e9}})
+		if x == t { // the reloaded open token is sealed by its receiver and travels again
+			s3 := h.seal(nx)
+			h.tokKey[s3] = key
+			ns3 := h.receive(h.send(s3), false)
+			h.tokKey[ns3] = key
+			for _, y := range []int{s, s3, ns3} {
+				h.add(vm.Op{K: "verify", A: y, KS: &vm.KeySel{Key: key}, Az: &az, Lim: &vm.Lim{MaxDurNs: 1e9}})
+			}
+		}
+	}
+	// one value for every source of the history (read scripts stay as drawn)
+	var one string
+	for i := range h.p.Ops {
+		if e := h.p.Ops[i].Ent; e != nil {
+			if one == "" {
+				one = e.Bytes
+			}
+			e.Bytes = one
+		}
+	}
+	h.p.Replayed = true
+	h.p.Note = "replayed entropy"
+	return h.p
+}
+
 // ---- C01
 
 func genC01(r *rand.Rand, run int, tier string) *vm.Plan {
+	if run%16 == 9 {
+		return genReplayed(r, run%3 == 0)
+	}
 	h := newHist(r, 1+r.Intn(2), run%3 == 0)
 	nt := 1 + r.Intn(3)
 	for i := 0; i < nt; i++ {
@@ -370,6 +465,9 @@ var sealMuts = []string{"seal_sig_flip", "last_key_flip", "block_flip", "sig_fli
 	"forge_tail", "forge_tail", "proof_crafted", "rekey", "replace_attacker", "key_flip"}
 
 func genC09(r *rand.Rand, run int, tier string) *vm.Plan {
+	if run%12 == 7 {
+		return genReplayed(r, run%2 == 0)
+	}
 	h := newHist(r, 1, r.Intn(2) == 0)
 	t := h.issue()
 	for k := []int{0, 0, 1, 2, 3, 5}[r.Intn(6)]; k > 0; k-- {
